@@ -28,10 +28,10 @@ fn c15_mark_dirty_bits_bounded() {
     while i < 4 { LOG[i].store(init[i], Ordering::Relaxed); i += 1; }
     let logmem = mk_log(&LOG);
     let (before, npages): (usize, usize) = (kani::any(), kani::any());
-    kani::assume(npages >= 1 && before + npages <= 32);          // what AtomicBitmapMmap::new guarantees for page-aligned regions
+    kani::assume(npages >= 1 && npages <= 32 && before <= 32 && before + npages <= 32);          // what AtomicBitmapMmap::new guarantees for page-aligned regions
     let b = AtomicBitmapMmap { logmem: logmem.clone(), pages_before_region: before, number_of_pages: npages };
     let (off, len): (usize, usize) = (kani::any(), kani::any());
-    kani::assume(len <= 5 * 4096 - 4095);                         // at most 5 pages per write
+    kani::assume(len <= 4 * 4096 + 1);                         // at most 5 pages per write
     b.mark_dirty(off, len);
     // oracle: a guest page is dirtied iff the byte range [off, off+len) of the region intersects it
     let p: usize = kani::any();
